@@ -13,6 +13,7 @@ import (
 	"sync"
 	"time"
 
+	"asherahverif/doubles"
 	"asherahverif/shim/vsched"
 )
 
@@ -22,6 +23,7 @@ type KConfig struct {
 	Spec  PolicySpec
 	Alpha KAlphabet
 	Depth int
+	Probes bool // C20: run the repetition probes from every expanded state
 }
 
 // kExpand is the worker's answer for one history: the successors by every enabled operation.
@@ -29,6 +31,7 @@ type kExpand struct {
 	Hist  []string `json:"h"`
 	Succ  []kSucc  `json:"s"`
 	Error string   `json:"e,omitempty"`
+	Probe *kProbeResult `json:"p,omitempty"`
 }
 
 type kSucc struct {
@@ -90,6 +93,10 @@ func kRun(cfg *KConfig, hist []string, judgeLast bool, wantDump bool) (succ kSuc
 // kExpandOne computes all successors of one history.
 func kExpandOne(cfg *KConfig, hist []string) kExpand {
 	out := kExpand{Hist: hist}
+	if cfg.Probes {
+		p := kProbe(cfg, hist)
+		out.Probe = &p
+	}
 	_, enabled, _ := kRun(cfg, hist, false, false)
 	for _, op := range enabled {
 		h2 := append(append([]string{}, hist...), op)
@@ -156,7 +163,11 @@ func kBFS(cfg *KConfig, prop string, workers int, deadline time.Time) *KResult {
 	}
 	var procs []*wproc
 	for i := 0; i < workers; i++ {
-		cmd := exec.Command(self, "kworker", cfg.Name)
+		wname := cfg.Name
+		if cfg.Probes {
+			wname += "+probes"
+		}
+		cmd := exec.Command(self, "kworker", wname)
 		cmd.Env = append(os.Environ(), "GOMAXPROCS=2")
 		cmd.Stderr = os.Stderr
 		in, _ := cmd.StdinPipe()
@@ -236,6 +247,22 @@ func kBFS(cfg *KConfig, prop string, workers int, deadline time.Time) *KResult {
 				res.Cap = ex.Error
 				res.Exhaustive = false
 				continue
+			}
+			if ex.Probe != nil {
+				for k, v := range ex.Probe.Counters {
+					res.Counters[k] += v
+				}
+				for _, v := range ex.Probe.Viols {
+					if v.Prop != prop {
+						continue
+					}
+					sig := v.Sig + "@" + cfg.Name
+					res.Counters["violating-probes"]++
+					if !sigSeen[sig] {
+						sigSeen[sig] = true
+						res.Viols = append(res.Viols, Viol{Property: prop, Harness: "K/" + cfg.Name, Sig: sig, Msg: v.Msg, Ops: frontier[i]})
+					}
+				}
 			}
 			for _, s := range ex.Succ {
 				res.Transitions++
@@ -323,6 +350,8 @@ func kConfigs() []*KConfig {
 }
 
 func kConfigByName(n string) *KConfig {
+	probes := strings.HasSuffix(n, "+probes")
+	n = strings.TrimSuffix(n, "+probes")
 	name, depth, _ := strings.Cut(n, "@")
 	for _, c := range kConfigs() {
 		if c.Name == name {
@@ -330,6 +359,7 @@ func kConfigByName(n string) *KConfig {
 			if depth != "" {
 				cc.Depth = atoi(depth)
 			}
+			cc.Probes = probes
 			return &cc
 		}
 	}
@@ -404,5 +434,238 @@ func (r *Report) AddK(kr *KResult, witnesses []string) {
 	sort.Strings(missing)
 	if len(missing) > 0 {
 		r.Notes = append(r.Notes, fmt.Sprintf("%s: oracle antecedents never reached at this depth: %v", kr.Cfg.Name, missing))
+	}
+}
+
+// ---------------------------------------------------------------------------------
+// C20: local probes from every state of K: repeat an operation that just succeeded on
+// the same long-lived session and count the external calls of the repetition.
+// ---------------------------------------------------------------------------------
+
+type kProbeResult struct {
+	Viols    []kViol        `json:"v,omitempty"`
+	Counters map[string]int `json:"c,omitempty"`
+}
+
+func kProbe(cfg *KConfig, hist []string) kProbeResult {
+	out := kProbeResult{Counters: map[string]int{}}
+	// which probes make sense is decided from the state after hist
+	_, enabled, _ := kRun(cfg, hist, false, false)
+	var xs []string
+	for _, op := range enabled {
+		if strings.HasPrefix(op, "enc:1:L:") || (strings.HasPrefix(op, "dec:1:L:") && strings.HasSuffix(op, ":new")) {
+			xs = append(xs, op)
+		}
+	}
+	for _, x := range xs {
+		for _, gap := range []int{0, P + 1, R - 1, R + 1} {
+			probe := []string{x}
+			if gap > 0 {
+				probe = append(probe, fmt.Sprintf("tick:%d", gap))
+			}
+			probe = append(probe, x)
+			kProbeRun(cfg, hist, probe, gap, &out)
+		}
+	}
+	return out
+}
+
+func kProbeRun(cfg *KConfig, hist, probe []string, gap int, out *kProbeResult) {
+	resetGlobals()
+	fail := func(sig, format string, a ...interface{}) {
+		out.Viols = append(out.Viols, kViol{Prop: "C20", Sig: sig, Msg: fmt.Sprintf(format, a...) + fmt.Sprintf(" [history %v + probe %v]", hist, probe)})
+	}
+	x := vsched.Run(vsched.RunOptions{MaxSteps: 2000000}, func() {
+		vsched.BeginQuiet()
+		w := newKWorld(cfg.Spec)
+		vsched.Quiesce()
+		for _, op := range hist {
+			w.apply(op)
+		}
+		first := w.apply(probe[0])
+		if first.Err != nil || first.Panic != "" {
+			out.Counters["probe-first-op-failed"]++
+			return // nothing "already succeeded"
+		}
+		msFromFirstEnd := len(w.ms.Calls)
+		for _, op := range probe[1 : len(probe)-1] {
+			w.apply(op)
+		}
+		msFrom, kmsFrom := len(w.ms.Calls), len(w.kms.Calls)
+		second := w.apply(probe[len(probe)-1])
+		ms := w.ms.Calls[msFrom:]
+		kms := w.kms.Calls[kmsFrom:]
+		now := second.T
+		// the key the repeated operation relies on
+		ikCreated := first.Rec.IKCreated
+		ikID := first.Rec.DRR.Key.ParentKeyMeta.ID
+		ikRow := w.row(ikID, ikCreated)
+		exempt := ""
+		var skRow *doubles.Row
+		if ikRow == nil {
+			exempt = "ik-row-missing"
+		} else {
+			if ikRow.Rec.ParentKeyMeta != nil {
+				skRow = w.row(ikRow.Rec.ParentKeyMeta.ID, ikRow.Rec.ParentKeyMeta.Created)
+			}
+			switch {
+			case first.Kind == "enc" && (ikRow.Rec.Revoked || now > ikCreated+E):
+				exempt = "ik-invalid"
+			case first.Kind == "enc" && skRow != nil && (skRow.Rec.Revoked || now > skRow.Created+E):
+				exempt = "parent-sk-invalid"
+			case first.Kind == "dec" && skRow != nil && skRow.Rec.Revoked && false:
+				exempt = ""
+			}
+		}
+		// did the first operation (re)load the keys it used? then their cache age is the probe's own
+		firstLoaded := false
+		for _, c := range w.ms.Calls[first.msFrom:msFromFirstEnd] {
+			if cfg.Spec.CacheIK && c.ID == ikID {
+				firstLoaded = true
+			}
+			if !cfg.Spec.CacheIK && strings.HasPrefix(c.ID, "_SK_") {
+				firstLoaded = true
+			}
+		}
+		if second.Err != nil || second.Panic != "" {
+			fail("repeat-failed", "repeating %s after it succeeded failed: %v %s", probe[0], second.Err, second.Panic)
+			return
+		}
+		noCache := cfg.Spec.NoCache
+		switch {
+		case noCache:
+			out.Counters["C20.nocache-probe"]++
+			if len(ms) == 0 {
+				fail("nocache-served-from-memory", "with caching disabled the repeated %s performed no metastore call: something was retained", probe[0])
+			}
+			if live := w.F[0].tf.Live(); len(live) > 0 {
+				fail("nocache-retains", "with caching disabled %d secrets stay live between calls", len(live))
+			}
+		case exempt != "":
+			out.Counters["C20.exempt:"+exempt]++
+		case gap > 0 && gap <= R-1 && !firstLoaded:
+			// the first operation was itself a cache hit: the entry's age is older than the probe and
+			// the interval may legitimately end inside the gap
+			out.Counters["C20.exempt:entry-older-than-probe"]++
+		case gap <= R-1:
+			out.Counters["C20.hit-probe"]++
+			if !cfg.Spec.CacheIK && first.Kind != "" {
+				// IK caching off by policy: only the SK may be served from cache
+				if len(kms) > 0 {
+					fail("sk-not-cached", "repeating %s %ds later unwrapped the system key again (%d KMS calls) although system keys are cached", probe[0], gap, len(kms))
+				}
+				break
+			}
+			if len(ms) != 0 || len(kms) != 0 {
+				fail(fmt.Sprintf("cache-miss:%s:gap%d", first.Kind, gapClass(gap)), "repeating %s %ds after it succeeded performed %d metastore and %d KMS calls, want 0: %s", probe[0], gap, len(ms), len(kms), callList(ms, kms))
+			}
+		default: // one interval elapsed: the key's record is re-read once
+			out.Counters["C20.refresh-probe"]++
+			if !cfg.Spec.CacheIK {
+				break
+			}
+			ikReads, other := 0, 0
+			for _, c := range ms {
+				switch {
+				case c.Op == "Store":
+					other++
+				case c.ID == ikID:
+					ikReads++
+				case strings.HasPrefix(c.ID, "_SK_"):
+					// the parent may be re-read too when it is stale
+				default:
+					other++
+				}
+			}
+			if ikRow != nil && ikRow.Rec.Revoked && ikReads == 0 {
+				// a key already known to be revoked need not be re-read
+				out.Counters["C20.exempt:revoked-key-not-reread"]++
+			} else if ikReads != 1 {
+				fail("refresh-reads:"+first.Kind, "repeating %s one interval later read the key's record %d times, want exactly once: %s", probe[0], ikReads, callList(ms, kms))
+			}
+			if other > 0 {
+				fail("refresh-extra-calls:"+first.Kind, "repeating %s one interval later made %d unrelated metastore calls: %s", probe[0], other, callList(ms, kms))
+			}
+			if len(kms) > 1 {
+				fail("refresh-kms", "repeating %s one interval later made %d KMS calls, want at most 1", probe[0], len(kms))
+			}
+		}
+		// a system key is unwrapped at most once per factory and interval
+		if cfg.Spec.CacheSK && !cfg.Spec.NoCache && cfg.Spec.SKPolicy == "" {
+			last := map[string]int64{}
+			for _, c := range w.kms.Calls {
+				if c.Op != "DecryptKey" || c.Result != "ok" {
+					continue
+				}
+				k := c.Who + "/" + c.ID
+				if t, ok := last[k]; ok && c.At-t <= R {
+					// exempt: the SK is revoked (an invalid latest key that cannot be replaced is reloaded on every use)
+					revoked := false
+					for _, r := range w.ms.SortedRows() {
+						if strings.HasPrefix(r.ID, "_SK_") && r.Rec.Revoked && fmt.Sprintf("%x", r.Rec.EncryptedKey[:8]) == c.ID {
+							revoked = true
+						}
+					}
+					if revoked {
+						out.Counters["C20.exempt:unwrap-of-revoked-sk"]++
+					} else {
+						fail("sk-unwrapped-twice", "factory %s asked the KMS to unwrap the same system key at t=%d and again at t=%d (interval %d)", c.Who, t, c.At, R)
+					}
+				}
+				last[k] = c.At
+			}
+			out.Counters["C20.unwrap-log-checked"]++
+		}
+	})
+	if x.PanicVal != nil || x.Deadlock != "" || x.Horizon {
+		fail("probe-crash", "probe execution aborted: panic=%v deadlock=%s", x.PanicVal, x.Deadlock)
+	}
+}
+
+func gapClass(g int) int {
+	if g == 0 {
+		return 0
+	}
+	if g < R {
+		return 1
+	}
+	return 2
+}
+
+func callList(ms, kms []doubles.Call) string {
+	var sb strings.Builder
+	for _, c := range ms {
+		fmt.Fprintf(&sb, "%s(%s/%d)=%s; ", c.Op, c.ID, c.Created, c.Result)
+	}
+	for _, c := range kms {
+		fmt.Fprintf(&sb, "kms.%s=%s; ", c.Op, c.Result)
+	}
+	return sb.String()
+}
+
+// CheckC20 runs K with the repetition probes.
+func CheckC20(r *Report) {
+	r.Rule = "from every state of the K history space reached within the depth bound, every encrypt / decrypt that succeeds on a long-lived session of F1 is repeated on the same session immediately, 61 s, 599 s and 601 s later, and the metastore / KMS calls of the repetition are counted (0 within the interval; the key's record read exactly once after it); the KMS log of every probe history is checked for two unwraps of one system key by one factory within an interval; non-trivial = probes not exempt (key invalid / cannot be replaced)"
+	type pc struct {
+		name  string
+		depth int
+	}
+	plan := []pc{{"K1-default", 3}, {"K3a-shared-lru-1", 3}, {"K4-sessions-slru-1", 3}, {"K2-nocache", 2}, {"K5a-sk-only", 3}}
+	if r.Thorough() {
+		plan = []pc{{"K1-default", 4}, {"K3a-shared-lru-1", 4}, {"K3c-shared-slru-1", 4}, {"K4-sessions-slru-1", 4}, {"K6-shared-lru-2", 4}, {"K2-nocache", 3}, {"K5a-sk-only", 4}, {"K5b-ik-only", 3}, {"K1-default-full", 3}}
+	}
+	for _, p := range plan {
+		if !r.TimeLeft() {
+			r.Exhaustive = false
+			r.Caps = append(r.Caps, p.name+": not started (time budget)")
+			continue
+		}
+		cfg := kConfigByName(p.name)
+		cfg.Depth = p.depth + 1 // states up to depth p.depth are expanded (and probed)
+		cfg.Probes = true
+		kr := kBFS(cfg, "C20", numWorkers(), r.Deadline)
+		r.AddK(kr, []string{"C20.hit-probe", "C20.refresh-probe", "C20.unwrap-log-checked"})
+		r.DistinctNontrivial += kr.Counters["C20.hit-probe"] + kr.Counters["C20.refresh-probe"] + kr.Counters["C20.nocache-probe"]
+		r.Evaluations += kr.Counters["C20.hit-probe"] + kr.Counters["C20.refresh-probe"] + kr.Counters["C20.nocache-probe"]
 	}
 }
